@@ -323,9 +323,10 @@ def explore(cfg, max_states):
                 truncated = True
                 break
             r = w.runnable()
-            if w.ch._flushed:
+            # (branch accounting only; a channel with other internals simply does not report these)
+            if getattr(w.ch, "_flushed", False):
                 flags.add("flushed")
-            if w.ch._queue._putters:
+            if getattr(getattr(w.ch, "_queue", None), "_putters", None):
                 flags.add("putter")
             for l in r:
                 stack.append(path + [l])
@@ -441,7 +442,7 @@ def random_runs(chk, drv, n, oracle_only=False):
             chk.count("buffer_%d" % buf)
             chk.count("schedule_len_%s" % ("<8" if len(followed) < 8 else "8-15" if len(followed) < 16 else "16+"))
             chk.count("closed" if w.ch.closed() else "never_closed")
-            if len(w.loop.tasks) > len(progs) and w.ch._flushed:
+            if len(w.loop.tasks) > len(progs) and getattr(w.ch, "_flushed", False):
                 chk.count("flush_ran")
             if w.cancel_req:
                 chk.count("cancel_" + "+".join(sorted(set(w.cancel_req.values()))))
